@@ -19,6 +19,8 @@ func init() {
 		func(t *vcTrial) { vcRunC13(t, vc13Cfg{Kind: "shutdown", Clients: 3, D11: true, DeadlineMs: 400}) },
 		func(t *vcTrial) { vcRunC13(t, vc13Cfg{Kind: "shutdown", Clients: 1, D11: true, DeadlineMs: 400}) },
 		func(t *vcTrial) { vcRunC13(t, vc13Cfg{Kind: "shutdown", Clients: 6, Hold: 2, DeadlineMs: 60}) },
+		func(t *vcTrial) { vcRunC13(t, vc13Cfg{Kind: "shutdown", Clients: 4, Hold: 2, HoldGone: true}) },
+		func(t *vcTrial) { vcRunC13(t, vc13Cfg{Kind: "shutdown", Network: "unix", Clients: 2, Hold: 1, HoldGone: true, DeadlineMs: 50}) },
 		func(t *vcTrial) { vcRunC13(t, vc13Cfg{Kind: "emfile", Clients: 6}) },
 		vcRunC13EmfileShutdown,
 		vcRunC13EmfileLong,
@@ -38,6 +40,7 @@ type vc13Cfg struct {
 	D11        bool
 	S1         bool
 	Jitter     bool
+	HoldGone   bool // the peers of the held handlers hang up before Shutdown: closed by the poller, handler still running
 }
 
 func vcScenC13(t *vcTrial) {
@@ -53,6 +56,7 @@ func vcScenC13(t *vcTrial) {
 			cfg.DeadlineMs = r.rng(20, 120)
 		}
 	}
+	cfg.HoldGone = cfg.Hold > 0 && r.chance(40)
 	cfg.D11 = r.chance(20)
 	cfg.S1 = r.chance(20)
 	cfg.Jitter = r.chance(40)
@@ -257,6 +261,37 @@ func vcRunC13(t *vcTrial, cfg vc13Cfg) {
 		for int(atomic.LoadInt32(&held)) < cfg.Hold && time.Now().Before(dl) {
 			time.Sleep(100 * time.Microsecond)
 		}
+		if cfg.HoldGone {
+			// the peers hang up while their handlers are held: the connections are closed (by the
+			// poller) but not torn down - they stay tracked until the handlers return
+			wg.Wait()
+			hmark := vcTraceMark()
+			n := 0
+			for _, cl := range clis {
+				if cl.kind == "hold" {
+					if n%2 == 0 {
+						cl.c.Close()
+					} else {
+						vcRST(cl.c)
+					}
+					cl.closed = true
+					n++
+				}
+			}
+			for dl := time.Now().Add(time.Second); time.Now().Before(dl); {
+				seen := 0
+				for _, e := range vcTraceSince(hmark) {
+					if int(e.Point) == vpOnHupAfterCloseBy {
+						seen++
+					}
+				}
+				if seen >= n {
+					break
+				}
+				time.Sleep(200 * time.Microsecond)
+			}
+			t.Stat("held_handlers_whose_peer_hung_up", n)
+		}
 	}
 	if cfg.S1 {
 		// data arrives for idle connections exactly while Shutdown is between isIdle and Close
@@ -359,7 +394,7 @@ func vcRunC13(t *vcTrial, cfg vc13Cfg) {
 		case <-time.After(5 * time.Second):
 			t.Violate("C13", "serve_not_returned", "Shutdown returned nil but Serve has not returned after 5s")
 		}
-		if cfg.Hold > 0 && cfg.DeadlineMs == 0 && int(atomic.LoadInt32(&held)) == cfg.Hold && atomic.LoadInt32(&servedAfter) == 0 {
+		if cfg.Hold > 0 && !cfg.HoldGone && cfg.DeadlineMs == 0 && int(atomic.LoadInt32(&held)) == cfg.Hold && atomic.LoadInt32(&servedAfter) == 0 {
 			t.Violate("C13", "busy_not_served", "handlers held across Shutdown were released but none of them could answer afterwards")
 		}
 	case shErr == context.DeadlineExceeded:
@@ -383,7 +418,8 @@ func vcRunC13(t *vcTrial, cfg vc13Cfg) {
 		// busy ones keep running: the held handlers' connections are still active
 		mu.Lock()
 		for _, rec := range recs {
-			if atomic.LoadInt32(&rec.depth) > 0 && !rec.Conn.IsActive() {
+			if atomic.LoadInt32(&rec.depth) > 0 && !rec.Conn.IsActive() && !vcSeenSince(mark, vpOnHupAfterCloseBy, rec.ID) {
+				// (a connection the peer's hang-up closed is not Shutdown's doing)
 				// root cause from the trace: was the connection idle when Shutdown's close pass looked at
 				// it (and became busy before the Close call landed), or busy all along?
 				var tIdle, tTask int64
